@@ -148,6 +148,8 @@ module Z :
 
   val min : z -> z -> z
 
+  val abs : z -> z
+
   val to_nat : z -> nat
 
   val of_nat : nat -> z
@@ -548,3 +550,56 @@ val hitmiss : arr -> arr -> z list
 val template_inside : arr -> arr -> z list -> bool
 
 val hitmiss_spec : arr -> arr -> z list
+
+type qe = { q_cost : z; q_idx : z; q_pos : z; q_margin : z }
+
+val qe_lt : qe -> qe -> bool
+
+val q_top : qe list -> qe option
+
+val q_remove : z -> qe list -> qe list
+
+type nb = { nb_delta : z; nb_step : z; nb_dpos : z list }
+
+val cheb : z list -> z
+
+val ws_neighbours : z list -> arr -> nb list
+
+val ws_neighbours_all : z list -> arr -> nb list
+
+val big : z
+
+val margin_of : z list -> z list -> z
+
+type resolver = z list -> z -> z -> nb -> (z * z) option * z
+
+val resolve_margin : resolver
+
+val resolve_checked : resolver
+
+type wstate = { w_res : z list; w_lines : z list; w_status : z list;
+                w_queue : qe list; w_idx : z }
+
+val wHITE : z
+
+val gREY : z
+
+val bLACK : z
+
+val ws_visit : z list -> bool -> z -> wstate -> (z * z) -> wstate
+
+val ws_pop :
+  resolver -> z list -> nb list -> z list -> bool -> qe -> wstate -> wstate
+
+val ws_loop :
+  resolver -> nat -> z list -> nb list -> z list -> bool -> wstate -> wstate
+
+val ws_init : z list -> z list -> z list -> z list -> z list -> wstate
+
+val ws_run :
+  resolver -> (z list -> arr -> nb list) -> arr -> arr -> arr -> bool -> z
+  list -> z list -> z list * z list
+
+val cwatershed : arr -> arr -> arr -> bool -> z list * z list
+
+val flood_spec : arr -> arr -> arr -> bool -> z list * z list
